@@ -172,6 +172,26 @@ def run_case(case):
             o = a.to_ordinal_axis(n)
             if not same(o.values, c):
                 bad("linear/to-ordinal", "to_ordinal_axis(%d).values = %r" % (n, o.values))
+        # a sliced linear axis must describe exactly the selected items: a[s].coordinates(len(range(n)[s])) == a.coordinates(n)[s]
+        for n in range(1, 6):
+            full = a.coordinates(n)
+            for sl in [(b0, b1, st) for b0 in [None] + list(range(0, n + 1)) for b1 in [None] + list(range(0, n + 2)) for st in (None, 1, 2, 3)]:
+                sl_ = slice(*sl)
+                want = full[sl_]
+                tr += 1
+                try:
+                    got = a[sl_]
+                except TypeError:
+                    bad("linear/slice-raises", "a[%r] raised TypeError for a non-negative slice" % (sl_,))
+                    continue
+                d = fields_same(a, got, skip=("offset", "sampling"))
+                if d:
+                    bad("linear/slice-fields", "slice %r changed other fields: %s" % (sl, d))
+                c = got.coordinates(len(want))
+                if any(abs(x - y) > 1e-9 * max(1.0, abs(y)) for x, y in zip(c, want)):
+                    bad("linear/slice-coordinates", "a[%r] describes coordinates %r, the selected items are at %r (n = %d)" % (sl_, c, want, n))
+        if fields_same(a, ref):
+            bad("linear/mutated", "slicing changed the receiver")
     elif not is_ord:
         for n in range(1, 7):
             tr += 1
